@@ -1,0 +1,97 @@
+//go:build verif
+
+package diam
+
+// Verification hook (build tag "verif" only): lets a test replace the kernel
+// SCTP socket of a diam.SCTPConn by an in-memory backend. Add-only: the methods
+// below shadow the ones promoted from the embedded *sctp.SCTPConn and fall back
+// to it when no backend is registered.
+
+import (
+	"net"
+	"sync"
+	"time"
+
+	"github.com/ishidawataru/sctp"
+)
+
+// VerifSCTPBackend is an in-memory replacement for the kernel SCTP socket.
+type VerifSCTPBackend interface {
+	SCTPRead(b []byte) (int, *sctp.SndRcvInfo, error)
+	SCTPWrite(b []byte, info *sctp.SndRcvInfo) (int, error)
+	Close() error
+	LocalAddr() net.Addr
+	RemoteAddr() net.Addr
+}
+
+var verifBackends sync.Map // *SCTPConn -> VerifSCTPBackend
+
+// NewVerifSCTPConn returns a diam.SCTPConn that reads from and writes to be.
+func NewVerifSCTPConn(be VerifSCTPBackend) MultistreamConn {
+	c := &SCTPConn{s: &streams{}, currStream: InvalidStreamID, writerStream: InvalidStreamID}
+	verifBackends.Store(c, be)
+	return c
+}
+
+func (msc *SCTPConn) verifBackend() VerifSCTPBackend {
+	if be, ok := verifBackends.Load(msc); ok {
+		return be.(VerifSCTPBackend)
+	}
+	return nil
+}
+
+func (msc *SCTPConn) SCTPRead(b []byte) (int, *sctp.SndRcvInfo, error) {
+	if be := msc.verifBackend(); be != nil {
+		return be.SCTPRead(b)
+	}
+	return msc.SCTPConn.SCTPRead(b)
+}
+
+func (msc *SCTPConn) SCTPWrite(b []byte, info *sctp.SndRcvInfo) (int, error) {
+	if be := msc.verifBackend(); be != nil {
+		return be.SCTPWrite(b, info)
+	}
+	return msc.SCTPConn.SCTPWrite(b, info)
+}
+
+func (msc *SCTPConn) Close() error {
+	if be := msc.verifBackend(); be != nil {
+		return be.Close()
+	}
+	return msc.SCTPConn.Close()
+}
+
+func (msc *SCTPConn) LocalAddr() net.Addr {
+	if be := msc.verifBackend(); be != nil {
+		return be.LocalAddr()
+	}
+	return msc.SCTPConn.LocalAddr()
+}
+
+func (msc *SCTPConn) RemoteAddr() net.Addr {
+	if be := msc.verifBackend(); be != nil {
+		return be.RemoteAddr()
+	}
+	return msc.SCTPConn.RemoteAddr()
+}
+
+func (msc *SCTPConn) SetDeadline(t time.Time) error {
+	if msc.verifBackend() != nil {
+		return nil
+	}
+	return msc.SCTPConn.SetDeadline(t)
+}
+
+func (msc *SCTPConn) SetReadDeadline(t time.Time) error {
+	if msc.verifBackend() != nil {
+		return nil
+	}
+	return msc.SCTPConn.SetReadDeadline(t)
+}
+
+func (msc *SCTPConn) SetWriteDeadline(t time.Time) error {
+	if msc.verifBackend() != nil {
+		return nil
+	}
+	return msc.SCTPConn.SetWriteDeadline(t)
+}
